@@ -19,7 +19,10 @@ SPEC = {
             "totality on every string over {'a',' ','\\t','\"','\\'','\\\\','\\0'} up to 6/8 and token equality with shlex.split on the "
             "unambiguous shell subset (every subset string over {'a','b',' ','\\t','\"','\\'','\\\\'} up to 6/7 + 6400/64000 "
             "grammar-generated command lines up to 4 KiB); 10^4/10^6 rounds of random strings over all 256 byte values up to 4 KiB "
-            "through every helper; string_printf/string_vprintf/wstring_printf producing 0 .. 2^20+1 bytes. "
+            "through every helper; string_printf/string_vprintf/wstring_printf producing every length 0..72/80 (both sides of 2*len(fmt)+16), "
+            "both sides of 0x400, 0x800, 4 KiB, 64 KiB and 2^20 bytes / 2^18 (thorough 2^20) wide chars, each case once per stale errno "
+            "value in {0,EILSEQ,ERANGE,EINVAL,ENOMEM} set immediately before the call; every other call into phosg is preceded by "
+            "vf::poison_errno(). "
             "distinct_nontrivial = distinct (helper, input shape) classes, e.g. split:leading-delim:cap-binds, "
             "split_context-rejected:inner-delim:unlimited, join:deque:cstr:first-empty, args:shlex:dquote+escape:2-4-tokens.",
     "level_text": "Every helper named by the property is executed on all inputs of a small scope chosen to contain the corner "
@@ -44,7 +47,11 @@ SPEC = {
         "split_args:total:threw:*", "split_args:total:returned:*+nul",
         "args:shlex:error:*", "args:shlex:dquote+escape:*", "args:shlex:squote:*", "args:shlex:escape:*",
         "random:strip:*", "random:wsplit:wide-code-points",
-        "printf:len>=1Mi", "printf:len1Ki", "printf:len0", "wprintf:result-at-least-2x-format:*", "wprintf:result-not-longer-than-format:*",
+        "printf:errno-EILSEQ:len>=1Mi", "printf:errno-ENOMEM:len1Ki", "printf:errno-0:len0", "printf:errno-ERANGE:len<1Ki",
+        "wprintf:result-at-least-2x-format+16:*", "wprintf:result-below-2x-format+16:*", "wprintf:result-not-longer-than-format:*",
+        "wprintf:errno-EILSEQ:result-at-least-2x-format+16", "wprintf:errno-0:result-at-least-2x-format+16",
+        "wprintf:errno-ERANGE:result-at-least-2x-format+16", "wprintf:errno-EINVAL:result-below-2x-format",
+        "wprintf:errno-ENOMEM:result-not-longer-than-format",
     ],
     "exhaustive": {"quick": False, "thorough": False},
     "exhaustive_note": "the small-alphabet sub-spaces listed in `rule` are enumerated completely (counts in samples / "
@@ -57,6 +64,7 @@ SPEC = {
         "split_args: token equality is demanded only on the subset where sh, bash and shlex agree (see vf/oracles/c08.py); "
         "elsewhere (NUL bytes, backslash inside single quotes, \\x inside double quotes, empty quoted arguments) only totality",
         "str_replace_all is never called with an empty target; skip_* offsets stay within [0, length]",
-        "wstring_printf: the vswprintf monitor compares va_list register-save offsets (x86-64 SysV layout)",
+        "wstring_printf: the vswprintf monitor compares va_list register-save offsets (x86-64 SysV layout); it never reads or writes errno",
+        "no helper's result may depend on the errno value found on entry (stale errno from earlier handled failures is legal state)",
     ],
 }
